@@ -13,7 +13,29 @@ pub fn hex_encode(bytes: &[u8]) -> String {
     s
 }
 
+/// `x<hex>`, or a concatenation `x<hex>+r<count>:<hex>+x<hex>...` in which an `r` part repeats its bytes `count`
+/// times (inputs of tens of MiB - one giant token or node - without sending them through the pipe).
 pub fn hex_decode(s: &str) -> Option<Vec<u8>> {
+    if s.contains('+') || s.starts_with('r') {
+        let mut out = Vec::new();
+        for part in s.split('+') {
+            if let Some(rest) = part.strip_prefix('r') {
+                let (count, hex) = rest.split_once(':')?;
+                let count: usize = count.parse().ok()?;
+                let unit = hex_decode(&format!("x{hex}"))?;
+                if unit.len().checked_mul(count)? > (1usize << 31) {
+                    return None;
+                }
+                out.reserve(unit.len() * count);
+                for _ in 0..count {
+                    out.extend_from_slice(&unit);
+                }
+            } else {
+                out.extend_from_slice(&hex_decode(part)?);
+            }
+        }
+        return Some(out);
+    }
     let s = s.strip_prefix('x')?;
     let b = s.as_bytes();
     if b.len() % 2 != 0 {
